@@ -88,10 +88,10 @@ theorem pickLen_le {fns : Nat → Option Wrap} {n ml : Nat} {w : Wrap} (h : pick
 theorem wrap_not_text {w : Wrap} {mk : Char} {r : Option (Nat × Nat)} {cs : List Node} :
     (Node.mk (.wrap w mk) r cs).isText = false := rfl
 
-theorem matchInner_ranges {lo hi r0 : Nat} {fns : Nat → Option Wrap} {mk : Char} {pre : List Node}
-    {oS : Nat} (hpre : ListOK lo oS pre) :
+theorem matchInner_ranges {lo hi r0 : Nat} {fns : Nat → Option Wrap} {mk : Char} {room : Nat}
+    {pre : List Node} {oS : Nat} (hpre : ListOK lo oS pre) :
     ∀ (fuel : Nat) (opener : Marker) (ms : MatchSt) (opener' : Marker) (ms' : MatchSt),
-      matchInner fns mk pre.length fuel opener ms = .ok (opener', ms') →
+      matchInner fns mk room pre.length fuel opener ms = .ok (opener', ms') →
       IShape lo hi r0 pre oS opener ms → IShape lo hi r0 pre oS opener' ms' := by
   intro fuel
   induction fuel with
@@ -104,6 +104,9 @@ theorem matchInner_ranges {lo hi r0 : Nat} {fns : Nat → Option Wrap} {mk : Cha
     unfold matchInner at h
     split at h
     · next hpos =>
+      split at h
+      · simp only [Except.ok.injEq, Prod.mk.injEq] at h
+        obtain ⟨rfl, rfl⟩ := h; exact hs
       simp only at h
       split at h
       · simp only [Except.ok.injEq, Prod.mk.injEq] at h
@@ -204,8 +207,8 @@ theorem last_not_text_set {pre t : List Node} {x y : Node} (hy : y.isText = fals
     obtain ⟨_, rfl⟩ := snoc_inj hl
     exact h (pre ++ [x] ++ t') z (by simp)
 
-theorem matchOuter_ranges {lo hi r0 : Nat} {fns : Nat → Option Wrap} {mk : Char} (minIdx : Nat) :
-    ∀ (k : Nat) (ms ms' : MatchSt), matchOuter fns mk minIdx k ms = .ok ms' →
+theorem matchOuter_ranges {lo hi r0 : Nat} {fns : Nat → Option Wrap} {mk : Char} (room minIdx : Nat) :
+    ∀ (k : Nat) (ms ms' : MatchSt), matchOuter fns mk room minIdx k ms = .ok ms' →
       MInv lo hi r0 ms → MInv lo hi r0 ms' := by
   intro k
   induction k with
@@ -218,9 +221,14 @@ theorem matchOuter_ranges {lo hi r0 : Nat} {fns : Nat → Option Wrap} {mk : Cha
     simp only at h
     split at h
     · simp at h
+    next nxt hnxt =>
+    -- the depth bookkeeping does not touch what `MInv` / `IShape` talk about
+    have hm' : MInv lo hi r0 { ms with innerDepth := max ms.innerDepth (wrapDepth nxt) } := hm
+    split at h
+    · simp at h
     · next tok htok =>
       split at h
-      · exact ih _ _ h hm
+      · exact ih _ _ h hm'
       · next opener hop =>
         obtain ⟨mid, hlist, hcl, hflag⟩ := hm
         obtain ⟨hsplit, hlen⟩ := split_at_getElem? htok
@@ -242,7 +250,8 @@ theorem matchOuter_ranges {lo hi r0 : Nat} {fns : Nat → Option Wrap} {mk : Cha
         have hpre : ListOK lo oS pre := hlpre.widen (Nat.le_refl _) hxa
         have htail : ListOK oE mid tl := hltail.widen hby (Nat.le_refl _)
         -- the shape before the inner loop
-        have hshape0 : IShape lo hi r0 pre oS opener ms :=
+        have hshape0 : IShape lo hi r0 pre oS opener
+            { ms with innerDepth := max ms.innerDepth (wrapDepth nxt) } :=
           ⟨oE, mid, _, htail, hcl, hfit, hflag, Or.inl ⟨hrem, tok, hor, hch, hsplit⟩⟩
         split at h
         · simp at h
@@ -295,8 +304,8 @@ theorem matchOuter_ranges {lo hi r0 : Nat} {fns : Nat → Option Wrap} {mk : Cha
 /-! ## `scan_and_match_delimiters`, the rule -/
 
 theorem scanAndMatch_ranges {src : List Char} {m : Srcmap} {lo pos : Nat} {fns : Nat → Option Wrap}
-    {mk : Char} {cs out : List Node} {b b' : List (Char × List Nat)}
-    (hi : RI src m lo pos cs) (h : scanAndMatch fns mk cs b = .ok (out, b'))
+    {mk : Char} {room : Nat} {cs out : List Node} {b b' : List (Char × List Nat)}
+    (hi : RI src m lo pos cs) (h : scanAndMatch fns mk room cs b = .ok (out, b'))
     (hlast : ∀ init last, cs = init ++ [last] → last.asMarker ≠ none) : RI src m lo pos out := by
   unfold scanAndMatch at h
   split at h
@@ -332,7 +341,7 @@ theorem scanAndMatch_ranges {src : List Char} {m : Srcmap} {lo pos : Nat} {fns :
                 ⟨cS, ⟨hinit, hi.deep.left, hi.markers.left⟩, ⟨cS, cE, hcr, Nat.le_refl _, hfit, hbT⟩,
                   Or.inl rfl⟩
               obtain ⟨mid, hlist, ⟨s, e, hcr', hms', hfit', heT⟩, hflag⟩ :=
-                matchOuter_ranges _ _ _ _ hms hm0
+                matchOuter_ranges _ _ _ _ _ hms hm0
               split at h
               · next hpos =>
                 simp only [Except.ok.injEq, Prod.mk.injEq] at h; rw [← h.1]
